@@ -8,6 +8,32 @@ from sa.dom import DomRoles, SECTION_CLASSES, all_objects
 from sa import models as M
 
 
+def _level_slots(D):
+    """Slots that only repeat what ``section_id`` already encodes: in the base constructor, a slot assigned the very
+    local (the nesting level) from which the section id string is built ('.' * level).  Comparing section_id compares
+    them, so R4 does not ask for a second comparison.  Found by that data flow, whatever the slot is called."""
+    init = D.base.find_method('__init__')
+    if init is None:
+        return set()
+    me = init.params()[0] if init.params() else 'self'
+    dots = set()
+    for n in ast.walk(init.node):
+        if isinstance(n, ast.BinOp) and isinstance(n.op, ast.Mult):
+            for side in (n.left, n.right):
+                if isinstance(side, ast.Name):
+                    dots.add(side.id)
+    out = set()
+    id_built = False
+    for n in ast.walk(init.node):
+        if isinstance(n, ast.Assign) and len(n.targets) == 1 and isinstance(n.targets[0], ast.Attribute) \
+                and isinstance(n.targets[0].value, ast.Name) and n.targets[0].value.id == me:
+            if isinstance(n.value, ast.Name) and n.value.id in dots:
+                out.add(n.targets[0].attr)
+            if n.targets[0].attr == 'section_id' and any(isinstance(x, ast.Name) and x.id in dots for x in ast.walk(n.value)):
+                id_built = True
+    return out if id_built else set()
+
+
 def run(P, rep, tier):
     rep.explanation = (
         'R1 (typestate): for every section class and every settable attribute (option descriptors, forwarding '
@@ -221,7 +247,8 @@ def run(P, rep, tier):
     for cname in SECTION_CLASSES:
         cls = D.classes[cname]
         slots = set(M.class_slots(P, cls) or ())
-        required = slots - {'_level'}
+        lvl_slots = _level_slots(D)
+        required = slots - lvl_slots
         missing_any = set()
         npaths = 0
         compared_all = None
@@ -234,8 +261,8 @@ def run(P, rep, tier):
             b = D.build_tree(I)[cname]
             # contents / options are unknown but of the declared shape
             for o in (a, b):
-                if '_content' in o.attrs:
-                    o.attrs['_content'] = Unk('content', taint=['ARG'])
+                if D.content_slot() in o.attrs:
+                    o.attrs[D.content_slot()] = Unk('content', taint=['ARG'])
                 o.attrs['options'] = ADict({}, open_=True, name='options')
             mark = len(I.events)
             m = cls.find_method('__eq__')
@@ -271,7 +298,7 @@ def run(P, rep, tier):
                         va, vb = a.attrs.get(s_), b.attrs.get(s_)
                         if (_same_val(l_, va) and _same_val(r_, vb)) or (_same_val(l_, vb) and _same_val(r_, va)):
                             direct.add(s_)
-            derived_only |= {s_ for s_ in got if s_ not in direct and s_ not in ('_level',)}
+            derived_only |= {s_ for s_ in got if s_ not in direct and s_ not in lvl_slots}
             # a slot also counts as covered when a compared slot holds it (file section: subsections list)
             covered = set(got)
             for s_ in list(got):
@@ -281,7 +308,7 @@ def run(P, rep, tier):
                         for k, v in a.attrs.items():
                             if v is x:
                                 covered.add(k)
-            miss = (set(a.attrs) - {'_level'}) - covered
+            miss = (set(a.attrs) - lvl_slots) - covered
             missing_any |= miss
             compared_all = covered if compared_all is None else (compared_all & covered)
         eq_compared[cname] = compared_all or set()
@@ -328,7 +355,7 @@ def run(P, rep, tier):
             if prop and 'get' in prop:
                 backing = {n.attr for n in walk_no_nested(prop['get'].node) if isinstance(n, ast.Attribute) and
                            isinstance(n.value, ast.Name) and n.value.id == 'self'} & slots
-            if backing and not backing <= (eq_compared.get(cname, set()) | {'_level'}):
+            if backing and not backing <= (eq_compared.get(cname, set()) | _level_slots(D)):
                 ok = False
                 rep.violation(r5, 'writer-reads-uncompared:%s:%s' % (cname, fld), '%s:%d' % (wm.relpath, wcls.node.lineno),
                               'the DOM writer reads %s.%s (slots %s) which %s.__eq__ does not compare: equal trees can serialise differently'
